@@ -84,10 +84,18 @@ package cluster_info
 // including ... queue parent cycles or self-parents, missing parents or queues ... - opening a session
 // and running all actions terminates without panicking."  What every consumer of snapshot.Queues
 // relies on: (1) a non-empty ParentQueue is a key of the map, (2) every listed child is a key of the
-// map, (3) child lists and parent references agree, (4) only orphans and their descendants are
-// dropped, (5) the parent relation is acyclic (parent-chain loops terminate).
-// (1)-(4) are proved. (5) is NOT established by the code: see the two `lemma [finding-queue-cycles-*]`
-// clauses (first-order necessary conditions of acyclicity: no 1-cycle, no 2-cycle).
+// map, (3) child lists and parent references agree, (4) only orphans / unrooted queues and their
+// descendants are dropped, (5) the parent relation is acyclic (parent-chain loops terminate).
+// Status on the fixed tree (3fa1605: UpdateQueueHierarchy = updateQueueChildren; cleanQueueOrphans;
+// cleanQueueCycles), all for the FINAL state: (1) [parentsPresent], (3) [childrenNameParent]
+// [parentsListChildren], (5) [rooted] (every remaining queue reaches a top-level queue through
+// remaining queues: rank(k) = that number of steps strictly decreases along ParentQueue) and its
+// first-order instances [noSelfParent] [noTwoCycle], and [entriesKept] are proved. (2) and (4) are
+// proved for the state after cleanQueueOrphans (its contract); that cleanQueueCycles preserves (2)
+// needs "a rooted chain has at most len(queues) nodes" (pigeonhole over the abstract map cardinality),
+// which is out of reach for the solvers: not claimed for the final state.
+// [rooted] and [parentsPresent] are stated under old(ancOK(queues)), the definition of the spec-only
+// iterate symbol qanc (see below); the conjunct qanc(k, 0) == k in [parentsPresent] only seeds a term.
 //@ func UpdateQueueHierarchy
 //@   props C10
 //@   requires keyed(queues) && noChildren(queues)
@@ -225,7 +233,9 @@ package cluster_info
 //@     invariant forall k in result :: allocated(result[k]) && brOK(result[k]) && result[k].BindRequest.Spec.SelectedNode in nodes && k == brKey(result[k].BindRequest)
 //@     invariant forall j int :: 0 <= j && j < len(requestsForDeletedNodes) ==> allocated(requestsForDeletedNodes[j]) && brOK(requestsForDeletedNodes[j]) && !(requestsForDeletedNodes[j].BindRequest.Spec.SelectedNode in nodes) && poolMatch(c.nodePoolSelector, requestsForDeletedNodes[j].BindRequest.Labels)
 //@     invariant forall i int :: 0 <= i && i <= rangeindex && bindRequests[i].Spec.SelectedNode in nodes ==> brKey(bindRequests[i]) in result
+//@     invariant forall i int :: 0 <= i && i <= rangeindex && !(bindRequests[i].Spec.SelectedNode in nodes) && poolMatch(c.nodePoolSelector, bindRequests[i].Labels) ==> (exists j int :: 0 <= j && j < len(requestsForDeletedNodes) && requestsForDeletedNodes[j].BindRequest == bindRequests[i])
 //@   ensures [liveNodeRequestsStored] result2 == nil ==> (forall i int :: 0 <= i && i < len(bindRequests) && bindRequests[i].Spec.SelectedNode in nodes ==> brKey(bindRequests[i]) in result0)
+//@   ensures [missingNodeRequestsOfPoolListed] result2 == nil ==> (forall i int :: 0 <= i && i < len(bindRequests) && !(bindRequests[i].Spec.SelectedNode in nodes) && poolMatch(c.nodePoolSelector, bindRequests[i].Labels) ==> (exists j int :: 0 <= j && j < len(result1) && result1[j].BindRequest == bindRequests[i]))
 //@   ensures [listError] result2 != nil ==> result0 == nil && len(result1) == 0
 //@   ensures [mapOnlyLiveNodes] result2 == nil ==> result0 != nil && (forall k in result0 :: brOK(result0[k]) && result0[k].BindRequest.Spec.SelectedNode in nodes && k == brKey(result0[k].BindRequest))
 //@   ensures [deletedOnlyMissingNodesOfPool] result2 == nil ==> (forall j int :: 0 <= j && j < len(result1) ==> brOK(result1[j]) && !(result1[j].BindRequest.Spec.SelectedNode in nodes) && poolMatch(c.nodePoolSelector, result1[j].BindRequest.Labels))
